@@ -259,7 +259,8 @@ class G:
             ins['keep'] = rng.choice(('all', 'some'))
         cls = rng.choice(CLASSES)
         shape = rng.choice(('same', 'same', 'labelonly', 'ow-exact', 'ow-exact2', 'block-same', 'two-class', 'if')
-                           + (('diff', 'prepend', 'append', 'chain', 'ow-move', 'remove', 'block-ins', 'block-diff', 'remove-range')
+                           + (('diff', 'prepend', 'append', 'chain', 'ow-move', 'remove', 'block-ins', 'block-diff', 'remove-range',
+                               'pre-ow', 'pre-ow', 'pre-ow')
                               if self.allow_move else ()))
         size = ins['size']
         lab = lambda: (self.new_label() + ': ') if INS_LABELS and rng.random() < 0.25 else ''
@@ -310,8 +311,19 @@ class G:
             for _ in range(rng.randrange(1, 3)):
                 t, _ = self.tmpl()
                 pre.append(f'{cls}={lab()}{t}{cmt()}')
-        elif shape in ('ow-exact', 'ow-exact2', 'ow-move'):
+        elif shape in ('ow-exact', 'ow-exact2', 'ow-move', 'pre-ow'):
             self.has_overwrite = True
+            prepended = shape == 'pre-ow'
+            if prepended:
+                # `>` insertions AND a `|` chain on the same line (the chain's position in the original
+                # address space must not be shifted by the inserted code); the chain is as long as,
+                # shorter or longer than the code it replaces, optionally followed by a plain insertion
+                self.moving = True
+                self.first_insert |= first
+                for _ in range(rng.randrange(1, 3)):
+                    t, _ = self.tmpl(rel_ok=False)
+                    pre.append(f'{cls}=>{lab()}{t}{cmt()}')
+                shape = rng.choice(('ow-exact', 'ow-exact', 'ow-exact2', 'ow-exact2', 'ow-move', 'ow-move'))
             total = size
             if shape != 'ow-exact':
                 t, s2 = self.tmpl(rel_ok=False)
@@ -335,6 +347,9 @@ class G:
             for s in parts:
                 t, _ = self.tmpl(s, rel_ok=False)
                 pre.append(f'{cls}=|{lab()}{t}{cmt()}')
+            if prepended and rng.random() < 0.35:
+                t, _ = self.tmpl(rel_ok=False)
+                pre.append(f'{cls}={lab()}{t}{cmt()}')
         elif shape == 'remove':
             self.moving = True
             pre.append(f'{cls}=!{addr}' if not first else f'{cls}=; nothing')
